@@ -124,6 +124,20 @@ impl<E: FieldElement, H: ElementHasher<BaseField = E::BaseField>> VerifierChanne
             .parse(main_trace_width, aux_trace_width, constraint_frame_width)
             .map_err(|err| VerifierError::ProofDeserializationError(err.to_string()))?;
 
+        // the Lagrange kernel frame must be present exactly when the AIR has a Lagrange kernel
+        // column, and must then hold log(trace_length) + 1 evaluations
+        let expected_lagrange_rows = if air.context().has_lagrange_kernel_aux_column() {
+            Some(air.trace_length().ilog2() as usize + 1)
+        } else {
+            None
+        };
+        let lagrange_rows = ood_trace_frame.lagrange_kernel_frame().map(|frame| frame.num_rows());
+        if lagrange_rows != expected_lagrange_rows {
+            return Err(VerifierError::ProofDeserializationError(format!(
+                "expected {expected_lagrange_rows:?} Lagrange kernel evaluations in the out-of-domain frame, but found {lagrange_rows:?}"
+            )));
+        }
+
         Ok(VerifierChannel {
             // trace queries
             trace_roots,
